@@ -1573,7 +1573,9 @@ fn main() {
             "?".to_string()
         };
         // keep only the message text (no file/line, which differ between the two dependency builds)
-        let msg: String = msg.chars().filter(|c| !c.is_control()).take(160).collect();
+        // head AND tail: the crate's `expect` messages are long sentences that END in the error kind, and the kind is what counts
+        let all: Vec<char> = msg.chars().filter(|c| !c.is_control()).collect();
+        let msg: String = if all.len() <= 160 { all.iter().collect() } else { all[..80].iter().chain(" ... ".chars().collect::<Vec<char>>().iter()).chain(all[all.len() - 75..].iter()).collect() };
         LAST_PANIC.with(|m| *m.borrow_mut() = msg);
     }));
     let stdin = io::stdin();
